@@ -62,10 +62,12 @@ const (
 	injInitialClose
 	injInitialCloseGenuineSCID
 	injRetryGoodCur
+	injReplayBefore // a copy of the client's own datagram, sent to the server from another source address just before it
+	injReplayAfter  // ... just after it
 	injNumKinds
 )
 
-var injNames = []string{"vn-other", "vn-ours", "retry-badtag", "retry-goodtag", "initial-ping", "initial-close", "initial-close-genuine-scid", "retry-goodtag-curdcid"}
+var injNames = []string{"vn-other", "vn-ours", "retry-badtag", "retry-goodtag", "initial-ping", "initial-close", "initial-close-genuine-scid", "retry-goodtag-curdcid", "replay-before", "replay-after"}
 
 type hsInj struct {
 	Dir, Idx, Kind int
@@ -80,6 +82,7 @@ type hsCase struct {
 	TwoVers   bool   // client offers two versions (both spoken by the server)
 	EarlyVar  int    // 0-RTT modes: 0 one stream written and closed early; 1 two streams, the second left open until the
 	                 // handshake is done; 2 like 0, and after a rejection the application re-sends on NextConnection
+	V6        bool   // client, server and attacker have IPv6 addresses
 	EchoDCID  bool   // the server uses the client's original DCID as its own source connection ID (legal)
 	Faults    []fault
 	Inj       *hsInj
@@ -95,7 +98,7 @@ func (c hsCase) String() string {
 	if c.Inj != nil {
 		inj = fmt.Sprintf("%s@%s#%d", injNames[c.Inj.Kind], []string{"c>s", "s>c"}[c.Inj.Dir], c.Inj.Idx)
 	}
-	return fmt.Sprintf("client=%s retry=%v vn=%v longchain=%v twovers=%v echo=%v mode=%q/%d faults=[%s] inject=%s seed=%d", c.Client, c.Retry, c.VN, c.LongChain, c.TwoVers, c.EchoDCID, c.Mode, c.EarlyVar, strings.Join(fs, " "), inj, c.Seed)
+	return fmt.Sprintf("client=%s retry=%v vn=%v longchain=%v twovers=%v echo=%v v6=%v mode=%q/%d faults=[%s] inject=%s seed=%d", c.Client, c.Retry, c.VN, c.LongChain, c.TwoVers, c.EchoDCID, c.V6, c.Mode, c.EarlyVar, strings.Join(fs, " "), inj, c.Seed)
 }
 
 // ---- minimal wire reader of the on-path attacker ----
@@ -167,7 +170,9 @@ func (g *hsEchoGen) offer(dcid []byte) {
 }
 
 type hsAttacker struct {
-	echo *hsEchoGen
+	attAddr net.Addr
+	sendRaw func(simnet.Packet)
+	echo    *hsEchoGen
 	mu        sync.Mutex
 	c         hsCase
 	cliAddr   net.Addr
@@ -181,6 +186,9 @@ type hsAttacker struct {
 	// bookkeeping for the monitors
 	genuineDelivered bool // a genuine non-Retry server datagram was released towards the client
 	armed            bool
+	replayedTyp      int
+	replayedLen      int
+	replayedEarly    bool
 	vnCorrupted      bool
 	genuineRetryDelivered bool
 	genuineOnItsWay       bool
@@ -331,6 +339,24 @@ func (a *hsAttacker) inject(dir, idx int, p simnet.Packet) []simnet.Packet {
 	var out []simnet.Packet
 	if a.armed && a.c.Inj != nil && a.c.Inj.Dir == dir && a.c.Inj.Idx == idx && !a.injected {
 		a.injected = true
+		if k := a.c.Inj.Kind; k == injReplayBefore || k == injReplayAfter {
+			h, ok := hsParse(p.Data)
+			if dir != 0 || !ok {
+				a.injSkipped = true
+				return nil
+			}
+			a.replayedTyp = h.typ
+			a.replayedLen = len(p.Data)
+			a.replayedEarly = !a.genuineOnItsWay // the server has not yet answered with anything but a Retry
+			q := simnet.Packet{To: a.srvAddr, From: a.attAddr, Data: append([]byte(nil), p.Data...)}
+			a.injectedInert = a.genuineDelivered
+			if k == injReplayBefore {
+				return []simnet.Packet{q}
+			}
+			send := a.sendRaw
+			time.AfterFunc(100*time.Microsecond, func() { send(q) })
+			return nil
+		}
 		pk := a.build(a.c.Inj.Kind)
 		if pk == nil {
 			a.injSkipped = true
@@ -344,9 +370,91 @@ func (a *hsAttacker) inject(dir, idx int, p simnet.Packet) []simnet.Packet {
 	return out
 }
 
+// hsRouter: the fault router plus a sink for whatever the endpoints send to the attacker's own address
+// (answers to replayed packets); those datagrams are not part of the client<->server datagram numbering.
+type hsRouter struct {
+	*faultRouter
+	attAddr string
+	amu     sync.Mutex
+	toAtt   [][]byte
+}
+
+func (r *hsRouter) SendPacket(p simnet.Packet) error {
+	if p.To.String() == r.attAddr {
+		r.amu.Lock()
+		r.toAtt = append(r.toAtt, append([]byte(nil), p.Data...))
+		r.amu.Unlock()
+		return nil
+	}
+	return r.faultRouter.SendPacket(p)
+}
+
+func hsAddrs(v6 bool) (cli, srv, att *net.UDPAddr) {
+	if v6 {
+		return &net.UDPAddr{IP: net.ParseIP("2001:db8::1"), Port: 9001}, &net.UDPAddr{IP: net.ParseIP("2001:db8::2"), Port: 9002},
+			&net.UDPAddr{IP: net.ParseIP("2001:db8:bad::666"), Port: 6666}
+	}
+	return &net.UDPAddr{IP: net.ParseIP("1.0.0.1"), Port: 9001}, &net.UDPAddr{IP: net.ParseIP("1.0.0.2"), Port: 9002},
+		&net.UDPAddr{IP: net.ParseIP("6.6.6.6"), Port: 6666}
+}
+
+// hsNewEnv is simcore's newSimEnv with selectable address family and the attacker sink (simcore.go is not ours to edit).
+func hsNewEnv(o simOpts, v6 bool) (*simEnv, *hsRouter, error) {
+	srvTLS, longTLS, cliTLS := simTLS()
+	if o.LongChain {
+		srvTLS = longTLS
+	}
+	if o.ServerTLS != nil {
+		o.ServerTLS(srvTLS)
+	}
+	if o.ClientTLS != nil {
+		o.ClientTLS(cliTLS)
+	}
+	cliAddr, srvAddr, attAddr := hsAddrs(v6)
+	r := &faultRouter{clientAddr: cliAddr.String(), start: time.Now(), sched: map[[2]int]fault{}, randDrop: o.RandDrop}
+	for _, f := range o.Faults {
+		r.sched[[2]int{f.Dir, f.Idx}] = f
+	}
+	hr := &hsRouter{faultRouter: r, attAddr: attAddr.String()}
+	n := &simnet.Simnet{Router: hr}
+	settings := simnet.NodeBiDiLinkSettings{Latency: 5 * time.Millisecond}
+	e := &simEnv{Router: r, Net: n, SrvAddr: srvAddr, CliTLS: cliTLS, Start: r.start}
+	e.CliPC = n.NewEndpoint(cliAddr, settings)
+	e.SrvPC = n.NewEndpoint(srvAddr, settings)
+	if err := n.Start(); err != nil {
+		return nil, nil, err
+	}
+	e.SrvTr = &quic.Transport{Conn: e.SrvPC}
+	if o.SrvTr != nil {
+		o.SrvTr(e.SrvTr)
+	}
+	sc := o.ServerConf
+	if sc == nil {
+		sc = &quic.Config{}
+	}
+	ln, err := e.SrvTr.Listen(srvTLS, sc)
+	if err != nil {
+		return nil, nil, err
+	}
+	e.Ln = ln
+	e.CliTr = &quic.Transport{Conn: e.CliPC}
+	if o.CliTr != nil {
+		o.CliTr(e.CliTr)
+	}
+	if !o.PlainPath {
+		e.CliUTr = &quic.UTransport{Transport: e.CliTr, QUICSpec: o.Spec}
+	}
+	e.CliConf = o.ClientConf
+	if e.CliConf == nil {
+		e.CliConf = &quic.Config{}
+	}
+	return e, hr, nil
+}
+
 // ---- one simulated handshake ----
 
 type hsResult struct {
+	srvRemote          string
 	valid              bool
 	deadOnReturn       error
 	dialErr, acceptErr error
@@ -368,6 +476,7 @@ func runOneHS(c hsCase) (fails []monFail, info string) {
 	}
 	var res hsResult
 	var att *hsAttacker
+	var router *hsRouter
 	var dump string
 	const hsIdle = 5 * time.Second
 	expectVer := quic.Version1
@@ -419,13 +528,15 @@ func runOneHS(c hsCase) (fails []monFail, info string) {
 			}
 			o.Spec = sp
 		}
-		e, err := newSimEnv(o)
+		e, hr, err := hsNewEnv(o, c.V6)
 		if err != nil {
 			fail("simhandshake/env", err.Error())
 			return
 		}
 		defer e.Close()
-		att = &hsAttacker{echo: echo, c: c, cliAddr: &net.UDPAddr{IP: net.ParseIP("1.0.0.1"), Port: 9001}, srvAddr: e.SrvAddr, attSCID: []byte{0xa7, 0x7a, 0xc4, 0xe1, 0x5c, 0x1d, 0x00, 0x01}, dcidsPerAttempt: map[string]map[string]bool{}, seenAttempt: map[string]bool{}, srvSCIDs: map[string]bool{}}
+		cliAddr, _, attAddr := hsAddrs(c.V6)
+		router = hr
+		att = &hsAttacker{echo: echo, c: c, cliAddr: cliAddr, attAddr: attAddr, sendRaw: func(q simnet.Packet) { _ = e.Router.PerfectRouter.SendPacket(q) }, srvAddr: e.SrvAddr, attSCID: []byte{0xa7, 0x7a, 0xc4, 0xe1, 0x5c, 0x1d, 0x00, 0x01}, dcidsPerAttempt: map[string]map[string]bool{}, seenAttempt: map[string]bool{}, srvSCIDs: map[string]bool{}}
 		att.armed = c.Mode == ""
 		e.Router.onPacket = att.observe
 		e.Router.inject = func(dir, idx int, p simnet.Packet) []simnet.Packet {
@@ -678,6 +789,7 @@ func runOneHS(c hsCase) (fails []monFail, info string) {
 			}
 			st := a.conn.ConnectionState()
 			res.srvVer, res.srvALPN, res.used0RTT[1] = st.Version, st.TLS.NegotiatedProtocol, st.Used0RTT
+			res.srvRemote = a.conn.RemoteAddr().String()
 		}
 		// usable in both directions?
 		if res.dialErr == nil && a.conn != nil && c.Mode == "" {
@@ -800,7 +912,12 @@ func runOneHS(c hsCase) (fails []monFail, info string) {
 	if c.Inj != nil && att.injected && !att.injSkipped {
 		injKind = c.Inj.Kind
 	}
-	alwaysInert := injKind == -1 || injKind == injRetryBad || injKind == injVNOurs
+	replay := injKind == injReplayBefore || injKind == injReplayAfter
+	// a replay from another address: with address validation (Retry) it can never matter — the first Initial gets
+	// a (stateless) Retry, the token-carrying one INVALID_TOKEN; without it, only a copy that arrives AFTER the
+	// genuine datagram is harmless (the first Initial a server sees binds the connection to its sender)
+	alwaysInert := injKind == -1 || injKind == injRetryBad || injKind == injVNOurs ||
+		(replay && c.Retry && c.Mode == "") || injKind == injReplayAfter
 	inertNow := alwaysInert || (att.injectedInert && injKind != injInitialCloseGenuineSCID) ||
 		(att.injectedAfterRetry && (injKind == injRetryGood || injKind == injRetryGoodCur))
 	if c.VN {
@@ -830,6 +947,34 @@ func runOneHS(c hsCase) (fails []monFail, info string) {
 		fail("simhandshake/dial-ok-closed/"+cls, fmt.Sprintf("Dial returned a nil error together with a connection that was already closed (%v)", res.deadOnReturn))
 	} else if res.dialErr == nil && res.acceptErr != nil && nf <= 2 {
 		fail("simhandshake/one-sided", fmt.Sprintf("Dial succeeded but the server never completed: %v", res.acceptErr))
+	}
+	if router != nil {
+		cliA, _, _ := hsAddrs(c.V6)
+		router.amu.Lock()
+		toAtt := router.toAtt
+		router.amu.Unlock()
+		if ok && res.srvRemote != "" && res.srvRemote != cliA.String() {
+			fail("simhandshake/replay-remote-addr", fmt.Sprintf("the server's connection is bound to %s, the genuine client is %s", res.srvRemote, cliA))
+		}
+		if replay && (c.Retry || injKind == injReplayAfter) {
+			// towards the replayer's address: nothing but stateless answers (Retry, INVALID_TOKEN, Version Negotiation)
+			big, total := 0, 0
+			for _, d := range toAtt {
+				total += len(d)
+				if len(d) > 250 {
+					big++
+				}
+			}
+			// (a copy of a later datagram reaches the established connection from a new address: the server may probe
+			// that path, RFC 9000 9.3 — bounded by the anti-amplification factor)
+			if !att.replayedEarly {
+				if total > 3*att.replayedLen {
+					fail("simhandshake/replay-attacker-traffic", fmt.Sprintf("%d bytes were sent to the address that replayed %d bytes of the client's traffic", total, att.replayedLen))
+				}
+			} else if big > 0 || len(toAtt) > 3 {
+				fail("simhandshake/replay-attacker-traffic", fmt.Sprintf("%d datagrams (%d bytes, %d larger than a Retry / INVALID_TOKEN answer) were sent to the address that replayed the client's datagram", len(toAtt), total, big))
+			}
+		}
 	}
 	if res.dialErr != nil && res.acceptErr == nil && c.Mode == "" {
 		fail("simhandshake/half-open", fmt.Sprintf("Dial failed (%v) but the server accepted a connection", res.dialErr))
@@ -1057,7 +1202,8 @@ func runSimHandshakeCases(w *bufio.Writer, seed uint64, n int, args []string) {
 	}
 	var cases []hsCase
 	// baseline of every scenario
-	for _, s := range scen {
+	for i, s := range scen {
+		s.V6 = i%3 == 2
 		cases = append(cases, s)
 	}
 	// witnesses of the known finding dial-ok-closed/version-negotiation (a forged VN without a common
@@ -1069,6 +1215,12 @@ func runSimHandshakeCases(w *bufio.Writer, seed uint64, n int, args []string) {
 	for i := 0; i < 6; i++ {
 		cases = append(cases, hsCase{Client: []string{"plain", "Chrome_115_IPv4", "unil"}[i%3], EchoDCID: true, LongChain: i >= 3,
 			Inj: &hsInj{1, 1 + i%2, []int{injRetryGood, injRetryGoodCur}[i%2]}})
+	}
+	// an always-Retry server and a copy of the client's Initial (idx 0: first, idx 1/2: the one carrying the Retry token)
+	// replayed from another source address right before / after it, IPv4 and IPv6
+	for i := 0; i < 24; i++ {
+		cases = append(cases, hsCase{Client: []string{"plain", "unil", "Chrome_115_IPv4"}[i%3], Retry: true, V6: i%2 == 0, LongChain: i >= 12,
+			Inj: &hsInj{0, (i / 2) % 3, []int{injReplayBefore, injReplayAfter}[(i/6)%2]}})
 	}
 	// 0-RTT with a slow server: the decision arrives after the client's PTO has re-sent early data
 	for i := 0; i < 12; i++ {
@@ -1110,8 +1262,13 @@ func runSimHandshakeCases(w *bufio.Writer, seed uint64, n int, args []string) {
 						if dir == 0 && idx > 3 {
 							continue
 						}
+						if (k == injReplayBefore || k == injReplayAfter) && dir != 0 {
+							continue
+						}
 						c := s
 						c.Inj = &hsInj{dir, idx, k}
+						cases = append(cases, c)
+						c.V6 = true
 						cases = append(cases, c)
 					}
 				}
@@ -1138,7 +1295,11 @@ func runSimHandshakeCases(w *bufio.Writer, seed uint64, n int, args []string) {
 				idx = r.Intn(4)
 			}
 			c.Inj = &hsInj{dir, idx, r.Intn(injNumKinds)}
+			if k := c.Inj.Kind; k == injReplayBefore || k == injReplayAfter {
+				c.Inj.Dir, c.Inj.Idx = 0, r.Intn(4)
+			}
 		}
+		c.V6 = r.Chance(2, 5)
 		cases = append(cases, c)
 	}
 	if len(cases) > n && !thorough {
